@@ -48,6 +48,7 @@ pub trait FdExt: AsFd {
 impl<T: AsFd> FdExt for T {}
 //@item src/resolvers.rs :: enum ResolverBackend | sub.ResolverBackend
 //@item src/resolvers.rs :: struct Resolver | sub.Resolver
+//@include prelude/resolver_cfg.rs
 //@item src/root.rs :: enum InodeType | sub.InodeType
 //@item src/root.rs :: struct RootRef | sub.RootRef
 pub open spec fn inode_fmt(t: InodeType) -> u32 {
